@@ -242,6 +242,8 @@ mod verif_replay_c17 {{
 def worker(ms, ov_root, pid, tier, out_json):
     if ms.get("kind") == "cfg":
         return worker_cfg(ms, ov_root, pid, tier, out_json)
+    if ms.get("kind") == "callgraph":
+        return worker_callgraph(ms, ov_root, pid, tier, out_json)
     import z3
     sys.path.insert(0, os.path.dirname(os.path.abspath(__file__)))
     from mirsmt import Mir, Executor, Unsupported
@@ -368,8 +370,15 @@ def native_replay_child(ov):
     e = dict(os.environ)
     e.pop("WILD_NO_FORK", None)
     run = subprocess.run([wild, "a.o", "-o", "out"], cwd=work, capture_output=True, text=True, env=e, timeout=120)
-    log = f"wild a.o -o out (undefined symbol, fork mode): exit status {run.returncode}; stderr: {run.stderr.strip()[:300]}"
-    return run.returncode == 0, log
+    log = f"wild a.o -o out (undefined symbol, fork mode): exit status {run.returncode}; stderr: {run.stderr.strip()[:200]}"
+    # second scenario: a failure AFTER the output has been written (unwritable --dependency-file)
+    with open(os.path.join(work, "b.c"), "w") as f:
+        f.write("void _start(void) { for (;;) {} }\n")
+    subprocess.run(["gcc", "-c", "-ffreestanding", "-fno-pic", "b.c", "-o", "b.o"], cwd=work, capture_output=True, text=True)
+    run2 = subprocess.run([wild, "b.o", "-o", "out2", "--dependency-file=/nonexistent-verif-dir/x.d"], cwd=work, capture_output=True,
+                          text=True, env=e, timeout=120)
+    log += f" | wild b.o -o out2 --dependency-file=<unwritable> (fork mode): exit status {run2.returncode}; stderr: {run2.stderr.strip()[:200]}"
+    return (run.returncode == 0) or (run2.returncode == 0), log
 
 
 def worker_cfg(ms, ov_root, pid, tier, out_json):
@@ -509,6 +518,154 @@ def worker_cfg(ms, ov_root, pid, tier, out_json):
             o["replay_log"] = (log or "")[-600:]
             path = os.path.join(d, o["name"] + ".json")
             json.dump(dict(property=pid, obligation=o["name"], desc=o["desc"], kind="cfg", cfg_path=o.get("path"), function=ms["function"],
+                           end_to_end=log, how="cd /verif && ./check --replay " + os.path.relpath(path, VERIF)), open(path, "w"), indent=1)
+            o["replay"] = path
+    json.dump(res, open(out_json, "w"), indent=1)
+
+
+def dump_all_mir(ov_root, ms):
+    src = os.path.join(ov_root, "src")
+    dump = os.path.join(ov_root, "mirdump-all")
+    shutil.rmtree(dump, ignore_errors=True)
+    target = os.path.join(VERIF, ".cache", "mir-target")
+    env = dict(os.environ)
+    env["CARGO_NET_OFFLINE"] = "true"
+    env["CARGO_INCREMENTAL"] = "0"
+    env.pop("RUSTFLAGS", None)
+    os.utime(os.path.join(src, ms["crate_dir"], "src", "lib.rs"), None)
+    cmd = ["cargo", "+nightly", "rustc", "--offline", "-p", ms["crate"], "--lib"]
+    if ms.get("features"):
+        cmd += ["--features", ms["features"]]
+    cmd += ["--target-dir", target, "--", "-Zdump-mir=PostAnalysisNormalize", f"-Zdump-mir-dir={dump}", "-C", "debug-assertions=off"]
+    r = subprocess.run(cmd, cwd=src, env=env, capture_output=True, text=True, timeout=2400)
+    if r.returncode != 0:
+        raise RuntimeError("MIR dump failed: " + r.stderr[-1500:])
+    return dump
+
+
+def worker_callgraph(ms, ov_root, pid, tier, out_json):
+    """Call-graph obligation: nothing reachable from the link work (Linker::run, crate::run) calls into the
+    `subprocess` module -- the success byte can only be sent by subprocess_result itself, whose CFG is checked
+    separately.  Functions and call edges come from the MIR of every function of the crate; reachability is decided
+    by z3's fixed-point engine (Datalog): reach(s). reach(v) :- reach(u), edge(u, v).  query reach(target)."""
+    import z3
+    sys.path.insert(0, os.path.dirname(os.path.abspath(__file__)))
+    from cfgsmt import split_call
+    res = dict(name=ms["name"], function="(all functions of libwild)", obligations=[], samples=[], solver_time_s=0.0, nontrivial=0)
+    try:
+        dump = dump_all_mir(ov_root, ms)
+        defs = {}
+        for f in os.listdir(dump):
+            if not f.endswith("after.mir"):
+                continue
+            txt = open(os.path.join(dump, f)).read()
+            m = re.match(r"// MIR for `(.+?)` after", txt)
+            if not m:
+                continue
+            calls = defs.setdefault(m.group(1), set())
+            for line in txt.splitlines():
+                line = line.strip()
+                if " -> [return: " in line and not line.startswith(("assert(", "drop(")):
+                    sc = split_call(line)
+                    if sc:
+                        calls.add(sc[1])
+        shutil.rmtree(dump, ignore_errors=True)
+        if len(defs) < 1000:
+            raise RuntimeError(f"only {len(defs)} function bodies dumped")
+
+        def last_seg(n):
+            n = re.sub(r"::<[^<>]*(?:<[^<>]*>[^<>]*)*>$", "", n)      # drop trailing turbofish
+            n = re.sub(r"::\{closure#\d+\}.*$", "", n) if False else n
+            return n.rsplit("::", 1)[-1]
+        names = sorted(defs)
+        idx = {n: i for i, n in enumerate(names)}
+        by_last = {}
+        for n in names:
+            by_last.setdefault(last_seg(n), []).append(n)
+        edges = set()
+        for n, calls in defs.items():
+            for c in calls:
+                for tgt in by_last.get(last_seg(c), []):
+                    edges.add((idx[n], idx[tgt]))
+        for n in names:                                   # a function "calls" the closures defined inside it
+            m = re.match(r"^(.*)::\{closure#\d+\}$", n)
+            if m and m.group(1) in idx:
+                edges.add((idx[m.group(1)], idx[n]))
+        targets = [n for n in names if n.startswith("subprocess::") and "{" not in n and "promoted" not in n]
+        sub_result_calls = defs.get("subprocess::subprocess_result")
+        if not targets or sub_result_calls is None:
+            raise RuntimeError("subprocess module functions not found in the dump")
+        # sources: what the worker (and the no-fork fallback) run: the callees named `run` of subprocess_result
+        sources = [n for n in by_last.get("run", []) if not n.startswith("subprocess::")]
+        if not sources:
+            raise RuntimeError("no `run` functions found")
+    except (RuntimeError, OSError) as e:
+        res["obligations"].append(dict(name=ms["name"], desc="call-graph extraction from the MIR", status="error", detail=str(e)[:800]))
+        json.dump(res, open(out_json, "w"))
+        return
+    res["functions"] = len(names)
+    res["edges"] = len(edges)
+    t0 = time.time()
+    fp = z3.Fixedpoint()
+    fp.set(engine="datalog")
+    bits = max(1, (len(names) - 1).bit_length())
+    S = z3.BitVecSort(bits)
+    edge = z3.Function("edge", S, S, z3.BoolSort())
+    reach = z3.Function("reach", S, z3.BoolSort())
+    fp.register_relation(edge, reach)
+    u, v = z3.Consts("u v", S)
+    fp.declare_var(u, v)
+    fp.rule(reach(v), [reach(u), edge(u, v)])
+    for a, b in edges:
+        fp.fact(edge(z3.BitVecVal(a, bits), z3.BitVecVal(b, bits)))
+    for s_ in sources:
+        fp.fact(reach(z3.BitVecVal(idx[s_], bits)))
+    bad = []
+    for t in targets:
+        r = fp.query(reach(z3.BitVecVal(idx[t], bits)))
+        if r == z3.sat:
+            bad.append(t)
+        elif r != z3.unsat:
+            res["obligations"].append(dict(name="c17_link_work_never_signals_parent", desc="call-graph reachability", status="error", detail=str(r)))
+    # vacuity witness: the link work really is reachable from the sources (e.g. layout code)
+    wit = [n for n in names if n.endswith("load_inputs_and_link")]
+    wit_ok = bool(wit) and fp.query(reach(z3.BitVecVal(idx[wit[0]], bits))) == z3.sat
+    res["solver_time_s"] = round(time.time() - t0, 2)
+    if wit_ok:
+        res["nontrivial"] += 1
+        res["samples"].append(dict(witness="reach(load_inputs_and_link) derivable from the `run` sources", sources=sources[:4]))
+    desc = "C17 nothing reachable from the link work (Linker::run / run) calls into the subprocess module (the success byte is sent only by subprocess_result)"
+    if not wit_ok:
+        res["obligations"].append(dict(name="c17_link_work_never_signals_parent", desc=desc, status="error", detail="vacuity: link work not reachable from sources"))
+    elif bad:
+        res["obligations"].append(dict(name="c17_link_work_never_signals_parent", desc=desc, status="violated", engines="z3 fixedpoint (datalog)",
+                                       detail="reachable: " + ", ".join(bad)[:400], path=", ".join(bad)[:400]))
+    else:
+        res["obligations"].append(dict(name="c17_link_work_never_signals_parent", desc=desc, status="holds", engines="z3 fixedpoint (datalog)",
+                                       queries=len(targets)))
+        res["nontrivial"] += 1
+    known = []
+    try:
+        known = json.load(open(os.path.join(VERIF, "known_findings.json"))).get("findings", [])
+    except Exception:
+        pass
+    import driver
+    viol = [o for o in res["obligations"] if o["status"] == "violated"
+            and not any(k.get("status") == "known" and k["property"] == pid and k.get("harness") == o["name"] for k in known)]
+    if viol:
+        ov = driver.Overlay(pid + "-mirreplay")
+        ov.create([])
+        try:
+            ok, log = native_replay_child(ov)
+        finally:
+            ov.remove()
+        d = os.path.join(VERIF, "replays", pid)
+        os.makedirs(d, exist_ok=True)
+        for o in viol:
+            o["reproduced"] = bool(ok)
+            o["replay_log"] = (log or "")[-600:]
+            path = os.path.join(d, o["name"] + ".json")
+            json.dump(dict(property=pid, obligation=o["name"], desc=o["desc"], kind="cfg", cfg_path=o.get("path"), function="call graph",
                            end_to_end=log, how="cd /verif && ./check --replay " + os.path.relpath(path, VERIF)), open(path, "w"), indent=1)
             o["replay"] = path
     json.dump(res, open(out_json, "w"), indent=1)
